@@ -247,7 +247,16 @@ def inverse(case, ctx):
     nyq = np.sum(pad * (-1.0) ** np.arange(N)) / N
     want = pad - pad.mean() - nyq * (-1.0) ** np.arange(N)
     scale = float(np.max(np.abs(x))) if np.any(x) else 1.0
+    if v == "default":
+        # hand over the object's own (cached) spectrum, as a caller naturally does; it must survive the call unchanged
+        own = ctx.lib(lambda: sig.fa_spectrum)
+        ctx.lib(fr.fas2values, own, dt)
+        ctx.lib(fr.fas2signal, own, dt, stype=case["stype"])
+        ctx.equal(sig.fa_spectrum, F, "the signal's own Fourier spectrum after it was passed to fas2values / fas2signal")
+        ctx.cls("own-spectrum")
+    F_before = F.copy()
     vals = np.asarray(ctx.lib(fr.fas2values, F, dt))
+    ctx.equal(F, F_before, "spectrum argument of fas2values after the call")
     ctx.shape(vals, (N,), "fas2values output (N=%d)" % N)
     ctx.close(np.real(vals), want, 1e-12 * scale * max(1.0, math.log2(N)), "fas2values real part vs padded record minus mean and Nyquist (N=%d)" % N)
     ctx.check(float(np.max(np.abs(np.imag(vals)))) <= 1e-12 * scale * max(1.0, math.log2(N)) + core.TINY, "fas2values imaginary part not ~0")
@@ -258,6 +267,7 @@ def inverse(case, ctx):
         ctx.check(type(obj) is eqsig.AccSignal, "fas2signal(stype='acc') returned %s" % type(obj).__name__)
     ctx.check(obj.dt == dt, "fas2signal dt %r != %r" % (obj.dt, dt))
     ctx.equal(np.asarray(obj.values), vals, "fas2signal values vs fas2values")
+    ctx.equal(F, F_before, "spectrum argument of fas2signal after the call")
 
 
 @st.composite
